@@ -506,6 +506,12 @@ def r01_3(ctx, counts: dict[str, int]) -> RuleResult:
 def run(ctx) -> dict:
     counts: dict[str, int] = {}
     results = [r01_1(ctx, counts), r01_2(ctx, counts), r01_3(ctx, counts)]
+    # document order of '|' and of the leading '//' (accumulated results are yielded sorted)
+    from .c02_trees import r02_3
+    results.append(r02_3(ctx, counts))
+    # predicates are evaluated for every item of the step
+    from .c08_sequences import r08_5
+    results.append(r08_5(ctx, counts))
     return {
         'results': results, 'counts': counts,
         'explanation':
